@@ -786,6 +786,7 @@ func (fr *FnRun) setArr(st *State, s *SliceV, av *ArrayV) {
 	if why, ok := st.stale[s.Arr]; ok {
 		panic(abortf("write to stale array %s (%s)", s.Arr, why))
 	}
+	st.checkWrite(s.Arr)
 	if len(s.Base) == 0 {
 		st.heap[s.Arr] = av
 		return
